@@ -2,7 +2,7 @@
 LEVEL = "proof"
 VERUS = []
 M = "common/rounding.rs"
-KANI = [dict(package="datafusion-common", module=M, timeout=1800, harnesses=[
+KANI = [dict(package="datafusion-common", module=M, timeout=900, harnesses=[
     dict(name="c23_next_up_f64", complete=True, what="next_up::<f64> for all 2^64 bit patterns x and all 2^64 candidates z: fixed points NaN/+inf; result >= x; no z strictly between; strict except -0.0; zero cases"),
     dict(name="c23_next_down_f64", complete=True, what="next_down::<f64>, mirrored contract"),
     dict(name="c23_round_trip_f64", complete=True, what="next_down(next_up(x)) == x and next_up(next_down(x)) == x for every finite f64"),
